@@ -77,12 +77,16 @@ def rule_mirror(ctx, tab, rule="R2"):
 
 def rule_not_started(ctx, tab, rule="R3"):
     S = tab["S"]
-    lit = pse.mk_bin("Lt", S, ("const", "f32", ("f", 0, 0.0)))
+    lits = (pse.mk_bin("Lt", S, ("const", "f32", ("f", 0, 0.0))),
+            ("bin", "Lt", TT.TIME, TT.fld(tab["roles"]["delay"])))      # time - delay < 0  |  time < delay (equivalent in floats)
     ns = [r for r in tab["rows"] if r.kind == "NotStarted"]
     ok = len(ns) >= 1
+    lit = lits[0]
     for r in ns:
         cs = [(t, v) for (t, v, s) in r.path.conds]
-        ok = ok and cs == [(lit, 1)]
+        ok = ok and len(cs) == 1 and cs[0][0] in lits and cs[0][1] == 1
+        if ok:
+            lit = cs[0][0]
     ctx.ob(rule, "not-started-iff-time<delay", ok,
            "NotStarted must be returned exactly under `time - delay < 0` (strict); rows: %s"
            % [[(show(t), v) for (t, v, s) in r.path.conds] for r in ns], tab["body"]["span"], what="not-started-test")
